@@ -10,6 +10,11 @@ from ref import at5 as r5
 from ref import framing
 
 
+def _err_text(i):
+    """Error texts of different lengths for different instances (i = 0 keeps the plain one)."""
+    return "ER: FFFE" + "!" * (i % 3)
+
+
 def _ext(sub, payload):
     return framing.ext(sub, payload)
 
@@ -53,8 +58,8 @@ def at4_catalog(g):
             (ts.AcTimerState(False, 7, 30 + i % 8), ts.AcTimerState(True, 0, 0)) if n == i % 4 else (ts.AcTimerState(False, 0, 0), ts.AcTimerState(False, 0, 0))))
             for n in range(4)]), 0x37, timers_ref),
         ("AcTimerStatusRequest", lambda i: ts.AcTimerStatusRequest(), 0x37, lambda i: []),
-        ("AcErrorInformationMessage", lambda i: E(er.AcErrorInformationMessage(i % 4, "ER: FFFE")), 0x1F,
-         lambda i: _ext(0xFF10, r4.build_error(i % 4, "ER: FFFE"))),
+        ("AcErrorInformationMessage", lambda i: E(er.AcErrorInformationMessage(i % 4, _err_text(i))), 0x1F,
+         lambda i: _ext(0xFF10, r4.build_error(i % 4, _err_text(i)))),
         ("AcErrorInformationRequest", lambda i: E(er.AcErrorInformationRequest(i % 4)), 0x1F, lambda i: _ext(0xFF10, [i % 4])),
         ("AcAbilityMessage", lambda i: E(ab.AcAbilityMessage([ab.AcAbility(i % 4, "UNIT", modes, fans, 17, 31, {0, 1, 9}, 0, 4)])), 0x1F,
          lambda i: _ext(0xFF11, r4.build_ability(i % 4, "UNIT", 0, 4, 0b11011, 0b0011101, 17, 31, 0x0203))),
@@ -108,7 +113,7 @@ def at5_catalog(g):
         ("AcTimerStatusMessage", lambda i: C(ts.AcTimerStatusMessage([ts.AcTimerStatusData(i, ts.AcTimerState(False, 7, 31), ts.AcTimerState(True, 0, 0))])), 0xC0,
          lambda i: c0(0x33, 9, [r5.build_timer_status(i, 0, 7, 31, 1, 0, 0)])),
         ("AcTimerStatusRequest", lambda i: C(ts.AcTimerStatusRequest()), 0xC0, lambda i: c0(0x33, 0, [])),
-        ("AcErrorInformationMessage", lambda i: E(er.AcErrorInformationMessage(i, "ER: FFFE")), 0x1F, lambda i: _ext(0xFF10, r5.build_error(i, "ER: FFFE"))),
+        ("AcErrorInformationMessage", lambda i: E(er.AcErrorInformationMessage(i, _err_text(i))), 0x1F, lambda i: _ext(0xFF10, r5.build_error(i, _err_text(i)))),
         ("AcErrorInformationRequest", lambda i: E(er.AcErrorInformationRequest(i)), 0x1F, lambda i: _ext(0xFF10, [i])),
         ("AcAbilityMessage", lambda i: E(ab.AcAbilityMessage([ab.AcAbility(i, "UNIT", 0, 4, modes, fans, 16, 31, 18, 30)])), 0x1F,
          lambda i: _ext(0xFF11, r5.build_ability(i, "UNIT", 0, 4, 0b11011, 0b10011101, 16, 31, 18, 30))),
